@@ -158,7 +158,7 @@ pub struct Report {
 }
 
 pub const MAX_SIGNATURES: usize = 50;
-pub const DISTINCT_CAP: usize = 6_000_000;
+pub const DISTINCT_CAP: usize = 3_000_000;
 
 pub fn hash_of<T: Hash + ?Sized>(t: &T) -> u64 {
     let mut h = std::collections::hash_map::DefaultHasher::new();
@@ -311,7 +311,7 @@ fn write_set(p: &Path, s: &HashSet<u64>) -> std::io::Result<()> {
 fn read_set(p: &Path, into: &mut HashSet<u64>) {
     if let Ok(b) = std::fs::read(p) {
         for c in b.chunks_exact(8) {
-            if into.len() >= DISTINCT_CAP * 4 {
+            if into.len() >= DISTINCT_CAP {
                 break;
             }
             into.insert(u64::from_le_bytes(c.try_into().unwrap()));
@@ -346,10 +346,17 @@ pub fn merge_with_sets(acc: &mut Report, o: Report) {
         distinct_observations,
         ..
     } = &o;
+    // the merged sets are capped too (16 workers' worth); beyond that the counts are lower bounds
     for h in distinct_nontrivial {
+        if acc.distinct_nontrivial.len() >= 16 * DISTINCT_CAP {
+            break;
+        }
         acc.distinct_nontrivial.insert(*h);
     }
     for h in distinct_observations {
+        if acc.distinct_observations.len() >= 16 * DISTINCT_CAP {
+            break;
+        }
         acc.distinct_observations.insert(*h);
     }
     acc.merge(o);
@@ -664,6 +671,12 @@ pub fn finalize(f: Finalize, rep: &mut Report) -> i32 {
     }
     rep.distinct_nontrivial_count = rep.distinct_nontrivial.len() as u64;
     rep.distinct_observations_count = rep.distinct_observations.len() as u64;
+    if rep.nontrivial_evals > rep.distinct_nontrivial_count && rep.nontrivial_evals > DISTINCT_CAP as u64 {
+        rep.notes.push(format!(
+            "distinct_nontrivial is a lower bound: each worker keeps at most {DISTINCT_CAP} case hashes (non-trivial evaluations: {})",
+            rep.nontrivial_evals
+        ));
+    }
     let wall = f.started.elapsed().as_secs_f64();
     let mut cov = serde_json::Map::new();
     cov.insert("evaluations".into(), json!(rep.evaluations));
